@@ -162,3 +162,65 @@ pub fn check_one_step(b: &Bounds, s: &L, loc: &mut Local) {
     loc.outcome(&(sd.open.nodes.len(), sd.open.edges.len(), sd.quot.len()));
     loc.sample(|| json!({"state": sd}));
 }
+
+
+/// A label whose equality is lawful but coarser than identity: two labels are equal when their keys are, the tag is
+/// carried along. "A failed quotient leaves the diagram exactly as it was" then has to hold for the tags too, which a
+/// comparison through `==` cannot see.
+#[derive(Clone, Debug, serde::Serialize)]
+pub struct Tagged {
+    pub key: u8,
+    pub tag: u8,
+}
+impl PartialEq for Tagged {
+    fn eq(&self, o: &Self) -> bool {
+        self.key == o.key
+    }
+}
+impl Eq for Tagged {}
+impl PartialOrd for Tagged {
+    fn partial_cmp(&self, o: &Self) -> Option<std::cmp::Ordering> {
+        Some(self.cmp(o))
+    }
+}
+impl Ord for Tagged {
+    fn cmp(&self, o: &Self) -> std::cmp::Ordering {
+        self.key.cmp(&o.key)
+    }
+}
+impl std::hash::Hash for Tagged {
+    fn hash<H: std::hash::Hasher>(&self, h: &mut H) {
+        self.key.hash(h)
+    }
+}
+
+/// quotient on the same diagram with tagged labels (tag = node index): on failure every tag must be where it was; on
+/// success every new node carries a label of its fibre (key and tag of one of its members)
+pub fn check_tagged(p: &L, loc: &mut Local) {
+    use crate::laxconv::*;
+    let tp: PLax<Tagged, u8> = PLax { open: POpen { nodes: p.open.nodes.iter().enumerate().map(|(i, &k)| Tagged { key: k, tag: i as u8 }).collect(), edges: p.open.edges.clone(), s: p.open.s.clone(), t: p.open.t.clone() }, quot: p.quot.clone() };
+    let mut l = build_lax(&tp);
+    let before: Vec<(u8, u8)> = l.hypergraph.nodes.iter().map(|t| (t.key, t.tag)).collect();
+    loc.trans(1);
+    let r = catch(|| l.quotient().map(|q| q.table.0).map_err(|q| q.table.0));
+    let after: Vec<(u8, u8)> = l.hypergraph.nodes.iter().map(|t| (t.key, t.tag)).collect();
+    match r {
+        Err(msg) => loc.violation("tagged-quotient:panic", json!({"diagram": p, "panic": msg})),
+        Ok(Err(_)) => {
+            if p.label_consistent() {
+                loc.violation("tagged-quotient:failed-on-consistent-labels", json!({"diagram": p}));
+            } else if after != before {
+                loc.violation("failed-quotient-changed-a-label-value", json!({"diagram": p, "labels_with_tags_before": before, "after": after}));
+            }
+            loc.nontrivial();
+        }
+        Ok(Ok(q)) => {
+            if !p.label_consistent() {
+                loc.violation("tagged-quotient:succeeded-on-conflicting-labels", json!({"diagram": p}));
+            } else if q.len() != before.len() || after.iter().enumerate().any(|(c, lab)| !(0..q.len()).any(|v| q[v] == c && before[v] == *lab)) {
+                loc.violation("quotient-label-is-not-a-label-of-its-fibre", json!({"diagram": p, "q": q, "labels_with_tags_before": before, "after": after}));
+            }
+        }
+    }
+    loc.outcome(&("tagged", p.label_consistent(), p.quot.len()));
+}
